@@ -51,10 +51,10 @@ func (g *gen) strLen() int {
 	switch {
 	case x < 0.80:
 		return smallLens[g.r.Intn(len(smallLens))]
-	case x < 0.97:
+	case x < 0.96:
 		return edgeLens[g.r.Intn(len(edgeLens))]
 	default:
-		if g.big || g.chance(0.3) {
+		if g.big || g.chance(0.6) {
 			return hugeLens[g.r.Intn(len(hugeLens))]
 		}
 		return edgeLens[g.r.Intn(len(edgeLens))]
@@ -340,10 +340,96 @@ func (g *gen) domainPacket(slot, kind string, wf bool) {
 	}
 }
 
+// genRewrite: a packet that is written (and printed), then modified through the API, then written
+// again — what a bridge or a retransmitting client does. Size caches and anything else computed at
+// the first write must not survive the modification.
+func (g *gen) genRewrite(n int) {
+	for c := 0; c < n; c++ {
+		kind := apiKinds[g.r.Intn(len(apiKinds))]
+		if g.chance(0.4) {
+			kind = []string{"Connect", "Publish", "Subscribe", "ConnAck", "Disconnect"}[g.r.Intn(5)]
+		}
+		g.emit("RESET")
+		g.emit("NOTE case=rewrite kind=%s wf=1", kind)
+		g.domainPacket("p", kind, true)
+		g.emit("VIEW p")
+		g.emit("ENC p")
+		if g.chance(0.7) {
+			g.emit("STR p")
+		}
+		// the modification: a user property (the adder every type with properties inherits), or any setter
+		steps := 1 + g.r.Intn(2)
+		for k := 0; k < steps; k++ {
+			ss := setters[kind]
+			if len(ss) == 0 {
+				break
+			}
+			if g.chance(0.6) {
+				g.emit("SET p AddUserProp %s %s", hxd(g.nonEmpty()), hxd(g.bytes()))
+			} else {
+				var cand []setter
+				for _, x := range ss {
+					if x.name == "SetProtocolName" || x.name == "SetProtocolVersion" {
+						continue
+					}
+					cand = append(cand, x)
+				}
+				x := cand[g.r.Intn(len(cand))]
+				g.emit("SET p %s %s", x.name, x.args(g))
+			}
+		}
+		g.emit("VIEW p")
+		g.emit("ENC p")
+		g.emit("RT p")
+		g.emit("STR p")
+		g.emit("WR p accept=all err=0")
+		g.emit("WR p accept=%d err=E1", g.wrAccept())
+		g.emit("VIEW p")
+	}
+}
+
+// genShared: packets for the concurrency stress, including a will message that is modified after
+// SetWill and then used both through its CONNECT and directly
+func (g *gen) genShared(n int) {
+	for c := 0; c < n; c++ {
+		g.emit("RESET")
+		if g.chance(0.5) {
+			g.emit("NOTE case=shared kind=Connect wf=0")
+			g.emit("NEW p Connect")
+			g.willMessage("pw")
+			g.emit("SET p SetWill pw")
+			g.scalarSetters("p", "Connect", 0.3, false)
+			for _, s := range setters["Publish"] {
+				if g.chance(0.3) {
+					g.emit("SET pw %s %s", s.name, s.args(g))
+				}
+			}
+		} else {
+			kind := apiKinds[g.r.Intn(len(apiKinds))]
+			g.emit("NOTE case=shared kind=%s wf=0", kind)
+			g.domainPacket("p", kind, false)
+		}
+		g.emit("ENC p")
+	}
+}
+
 func (g *gen) readOnlyOps(slot string) {
 	ops := []string{"STR", "DUMP", "WF", "VIEW", "ENC"}
 	for i := 0; i < 3; i++ {
 		g.emit("%s %s", ops[g.r.Intn(len(ops))], slot)
+	}
+}
+
+// how many bytes a faulty writer accepts: mostly a few, sometimes up to and beyond every size boundary
+func (g *gen) wrAccept() int {
+	switch x := g.r.Float64(); {
+	case x < 0.5:
+		return g.r.Intn(12)
+	case x < 0.75:
+		b := []int{127, 128, 129, 130, 16383, 16384, 16385, 16386, 16500, 65535, 65540}[g.r.Intn(11)]
+		return b + g.r.Intn(5) - 2
+	default:
+		return g.r.Intn(70000)
 	}
 }
 
@@ -357,6 +443,11 @@ func (g *gen) genPkt(n int) {
 		g.emit("RESET")
 		g.emit("NOTE case=pkt kind=%s wf=%s", kind, b01(wf))
 		g.domainPacket("p", kind, wf)
+		if kind == "Publish" && g.chance(0.12) {
+			// a large payload: 16 KiB and the sizes around it, up to beyond the two-byte limits of other fields
+			sz := []int{16383, 16384, 16385, 20000, 65535, 65536, 70000}[g.r.Intn(7)]
+			g.emit("SET p SetPayload %s", hxd(g.bytesN(sz)))
+		}
 		g.emit("VIEW p")
 		g.emit("ENC p")
 		g.readOnlyOps("p")
@@ -366,8 +457,8 @@ func (g *gen) genPkt(n int) {
 		g.emit("STR p")
 		g.emit("DUMP p")
 		g.emit("WR p accept=all err=0")
-		if g.chance(0.5) {
-			g.emit("WR p accept=%d err=E1", g.r.Intn(12))
+		if g.chance(0.7) {
+			g.emit("WR p accept=%d err=E1", g.wrAccept())
 		} else {
 			g.emit("WR p accept=0 err=E2")
 		}
@@ -481,6 +572,10 @@ func runGen(class string, seed int64, n int, w *bufio.Writer) {
 	switch class {
 	case "pkt":
 		g.genPkt(n)
+	case "rewrite":
+		g.genRewrite(n)
+	case "shared":
+		g.genShared(n)
 	case "hist":
 		g.genHist(n)
 	case "odd":
